@@ -69,26 +69,29 @@ type Conn struct {
 	inErr  error
 	outbox []byte
 
-	closed      bool
-	rArmed      bool
-	rFired      bool
-	wFired      bool
-	rDeadline   time.Time
-	blockedW    int // goroutines blocked in Write on the send window
-	parked      int // goroutines blocked in Read with nothing deliverable
-	inRead      int
-	readCalls   int
-	BytesRead   int
-	BytesWrit   int
-	Writes      []int
-	Deadlines   []DeadlineCall
-	CloseCalls  int
-	window      int // manual mode: Write blocks while this many bytes are waiting in the outbox (0 = unbounded)
-	localAddr   net.Addr
-	remoteAddr  net.Addr
-	writeErr    error // injected: next writes fail
-	readBudget  int   // inject read error after this many more bytes (-1 = off)
-	readBudgErr error
+	closed       bool
+	rArmed       bool
+	rFired       bool
+	wFired       bool
+	rDeadline    time.Time
+	blockedW     int // goroutines blocked in Write on the send window
+	parked       int // goroutines blocked in Read with nothing deliverable
+	inRead       int
+	readCalls    int
+	BytesRead    int
+	BytesWrit    int
+	Writes       []int
+	Deadlines    []DeadlineCall
+	CloseCalls   int
+	window       int // manual mode: Write blocks while this many bytes are waiting in the outbox (0 = unbounded)
+	localAddr    net.Addr
+	remoteAddr   net.Addr
+	writeErr     error // injected: next writes fail
+	writeBudget  int
+	stalled      bool
+	writeBudgErr error
+	readBudget   int // inject read error after this many more bytes (-1 = off)
+	readBudgErr  error
 }
 
 // NewLink creates a connected pair. auto=true gives a plain buffered pipe.
@@ -177,6 +180,27 @@ func (c *Conn) Write(b []byte) (int, error) {
 	if c.writeErr != nil {
 		return 0, c.writeErr
 	}
+	if c.writeBudgErr != nil && len(b) > c.writeBudget {
+		// the connection breaks inside this Write: the first writeBudget bytes made it out
+		k := c.writeBudget
+		c.writeErr, c.writeBudgErr, c.writeBudget = c.writeBudgErr, nil, 0
+		if k > 0 {
+			c.Writes = append(c.Writes, k)
+			c.BytesWrit += k
+			c.hook("write", b[:k])
+			cp := append([]byte(nil), b[:k]...)
+			if c.auto {
+				c.peer.deliverLocked(cp, c.maxSeg)
+			} else {
+				c.outbox = append(c.outbox, cp...)
+			}
+			l.cond.Broadcast()
+		}
+		return k, c.writeErr
+	}
+	if c.writeBudgErr != nil {
+		c.writeBudget -= len(b)
+	}
 	if c.auto && c.peer.closed {
 		return 0, io.ErrClosedPipe
 	}
@@ -185,6 +209,16 @@ func (c *Conn) Write(b []byte) (int, error) {
 	c.hook("write", b)
 	if len(b) == 0 {
 		return 0, nil
+	}
+	// the peer does not drain: the Write blocks (after having been observed) until it is drained again or closed
+	for c.stalled && !c.closed {
+		c.blockedW++
+		l.cond.Broadcast()
+		l.cond.Wait()
+		c.blockedW--
+	}
+	if c.closed {
+		return 0, net.ErrClosed
 	}
 	cp := append([]byte(nil), b...)
 	if c.auto {
@@ -214,6 +248,14 @@ func (c *Conn) Write(b []byte) (int, error) {
 	}
 	l.cond.Broadcast()
 	return len(b), nil
+}
+
+// StallWrites(true) makes Writes block (back-pressure: the peer stopped reading) until StallWrites(false) or Close.
+func (c *Conn) StallWrites(on bool) {
+	c.l.mu.Lock()
+	c.stalled = on
+	c.l.cond.Broadcast()
+	c.l.mu.Unlock()
 }
 
 // SetWindow bounds the number of written-but-untaken bytes (manual mode); Writes block beyond it.
@@ -340,6 +382,14 @@ func (c *Conn) FailReadAfter(n int, err error) {
 	c.l.mu.Lock()
 	c.readBudget, c.readBudgErr = n, err
 	c.l.cond.Broadcast()
+	c.l.mu.Unlock()
+}
+
+// FailWritesAfter lets n more bytes out and then makes Writes fail with err (the Write that crosses the limit
+// reports the bytes that made it).
+func (c *Conn) FailWritesAfter(n int, err error) {
+	c.l.mu.Lock()
+	c.writeBudget, c.writeBudgErr = n, err
 	c.l.mu.Unlock()
 }
 
